@@ -95,6 +95,8 @@ fn c15_figures_match_recomputation() {
         // coinbases claiming less and more than the subsidy: fees are floored at zero PER coinbase, then summed
         chain[3].txs[0].outputs[0].value = 49_0000_0000; chain[5].txs[0].outputs[0].value = 51_5000_0000; chain[6].txs[0].outputs[0].value = 50_0000_0001;
         chain[9].txs[0].outputs[0].value = 0;
+        // split rewards: only the FIRST coinbase output counts for the fee figure
+        chain[2].txs[0].outputs.push(TxOut::new(25_3000_0000, p2pkh_script(&[0x77; 20]))); chain[5].txs[0].outputs.push(TxOut::new(1_0000_0000, vec![0x51])); chain[6].txs[0].outputs.push(TxOut::new(0, vec![0x6a, 0x01, 0x41]));
         // non-monotonic timestamps
         chain[4].time = chain[3].time - 500; chain[5].time = chain[3].time + 7; chain[8].time = 1;
         relink(&mut chain);
@@ -119,4 +121,28 @@ fn c15_figures_match_recomputation() {
     let want = (3.0 * u32::MAX as f64 + 7.0) / 5.0;
     check(utils::get_mean(&big) == want, suite, "C15:exact_arithmetic_mean", "[u32::MAX, u32::MAX, 7, 0, u32::MAX]", &utils::get_mean(&big).to_string(), &want.to_string());
     finish(suite, cases);
+}
+
+/// C15 (one chain with eleven script types, run as a child process through the program's own logger): every figure of the
+/// report -- one entry per script type included -- reaches stdout, whatever the length of the report
+#[test]
+fn c15_report_through_the_program_logger() {
+    let suite = "c15_report_through_the_program_logger";
+    let key = { let mut k = vec![0x02]; k.extend(vec![9u8; 32]); k };
+    let scripts: Vec<Vec<u8>> = vec![
+        p2pkh_script(&[1; 20]), { let mut s = vec![33]; s.extend_from_slice(&key); s.push(0xac); s }, { let mut s = vec![0xa9, 0x14]; s.extend(vec![3u8; 20]); s.push(0x87); s },
+        { let mut s = vec![0x51, 33]; s.extend_from_slice(&key); s.extend([0x51, 0xae]); s }, vec![0x6a, 0x02, 0x68, 0x69], vec![0x51],
+        { let mut s = vec![0x00, 0x14]; s.extend(vec![4u8; 20]); s }, { let mut s = vec![0x00, 0x20]; s.extend(vec![5u8; 32]); s }, { let mut s = vec![0x51, 0x20]; s.extend(vec![6u8; 32]); s },
+        { let mut s = vec![0x52, 0x0a]; s.extend(vec![7u8; 10]); s }, vec![0x50, 0x01, 0x02]];
+    let mut chain = make_chain(4, &mut |h| if h == 0 { vec![] } else {
+        vec![TxSpec::new(vec![TxIn::new([h as u8; 32], 0, vec![0x51])], scripts.iter().enumerate().map(|(i, sc)| TxOut::new(1000 * h + i as u64, sc.clone())).collect())] });
+    relink(&mut chain);
+    let d = simple_dir(&chain); d.write();
+    let out = tempfile::tempdir().unwrap();
+    let (code, _names, stdout) = crate::blockchain::parser::verif_native::whole_run_in_child_ex(d.path(), out.path(), 0, false, "simplestats");
+    let inp = "4 blocks, 11 script types (P2PKH, P2PK, P2SH, multisig, OP_RETURN, non-standard, P2WPKH, P2WSH, P2TR, witness v2, unspendable), simplestats through SimpleLogger";
+    if check(code == Some(0), suite, "C15:report_renders", inp, &format!("exit {:?}", code), "exit 0") {
+        compare(suite, inp, &stdout, &recompute(&chain, &[0, 1, 2, 3]));
+    }
+    finish(suite, 1);
 }
